@@ -24,4 +24,15 @@ OffersAll == {{}, {Other}, {BasicChal}} \cup {{b} : b \in Bearers} \cup {{BasicC
                \cup {{BearerChal("-", {})}} \cup {{Other, b} : b \in Bearers}
 OffersSmall == {{}, {Other}, {BasicChal}, {BearerChal("-", {})}} \cup {{b} : b \in Bearers}
                  \cup {{BasicChal, BearerChal(CHOOSE r \in Realms : TRUE, {})}}
+\* real-time configuration: offers kept small so that three calls fit
+OffersTime == {{}, {BasicChal}} \cup {{b} : b \in Bearers}
+CfgTime1 == {Cfg2("refresh", "none")}
+\* Reachability witness (checked as an invariant it must be VIOLATED): a call is about to decide while, on its
+\* host, a token issued later has expired, one issued earlier still has more than a second left, and only the
+\* expired one covers the required scope - the shape the expiry purge must handle token by token.
+ExpiredBehindLive == \E s \in Slots : calls[s].pc = "decide" /\ \E i, j \in 1..Len(issued) :
+  /\ i < j /\ issued[i].host = calls[s].h /\ issued[j].host = calls[s].h
+  /\ issued[j].at + issued[j].life <= clock /\ issued[i].at + issued[i].life - clock > TPS
+  /\ Contains(issued[j].scope, calls[s].req) /\ ~Contains(issued[i].scope, calls[s].req)
+NeverExpiredBehindLive == ~ExpiredBehindLive
 ==============================================================================
